@@ -20,6 +20,10 @@ type convMsg struct {
 }
 
 type convSpec struct {
+	// Limit: 0 = no MaxMessageBytes; 1 = exactly the length of the longest
+	// message of the conversation (every message fits, the longest exactly);
+	// 2 = that length + 1
+	Limit int       `json:"limit,omitempty"`
 	Mode  int       `json:"mode"` // 0 SMTP, 1 LMTP plain, 2 LMTP per-recipient
 	NRcpt int       `json:"nrcpt"`
 	Msgs  []convMsg `json:"msgs"`
@@ -127,7 +131,7 @@ func genConvMsg(t *rapid.T, label string, maxPieces int) convMsg {
 }
 
 func genConvSpec(t *rapid.T) convSpec {
-	s := convSpec{Mode: rapid.IntRange(0, 2).Draw(t, "mode"), NRcpt: rapid.IntRange(1, 3).Draw(t, "nrcpt")}
+	s := convSpec{Mode: rapid.IntRange(0, 2).Draw(t, "mode"), NRcpt: rapid.IntRange(1, 3).Draw(t, "nrcpt"), Limit: rapid.SampledFrom([]int{0, 0, 1, 1, 2}).Draw(t, "limit")}
 	for i, n := 0, rapid.IntRange(1, 2).Draw(t, "nmsgs"); i < n; i++ {
 		s.Msgs = append(s.Msgs, genConvMsg(t, fmt.Sprintf("m%d", i), 5))
 	}
@@ -155,6 +159,17 @@ type cutObs struct {
 // connection.
 func runCut(b convBuilt, s convSpec, cut int, fault string, cfg harness.Config, script harness.Script) cutObs {
 	cfg.LMTP = s.Mode != 0
+	if s.Limit != 0 {
+		longest := 0
+		for _, wm := range b.want {
+			if len(wm) > longest {
+				longest = len(wm)
+			}
+		}
+		if longest > 0 {
+			cfg.MaxMessageBytes = int64(longest + s.Limit - 1)
+		}
+	}
 	script.LMTPSession = s.Mode == 2
 	if script.DefaultData == nil {
 		script.DefaultData = &harness.DataPlan{Read: harness.ReadPlan{Limit: -1}, Honest: true}
@@ -215,6 +230,9 @@ func c07Run(c c07Case) Verdict {
 		}
 	}
 	v.Classes = append(v.Classes, "fault_"+c.Fault)
+	if c.Conv.Limit == 1 {
+		v.Classes = append(v.Classes, "size_limit_exactly_met")
+	}
 	if p := o.r.Log.Panicked(); p != "" {
 		return failf("panic", "server logged a panic: %s", p)
 	}
